@@ -85,6 +85,10 @@ void Interpreter::pop_scope() {
                   "[SCOPE] pop_scope: destructor_stacks_ size before: %zu");
     }
 
+    // deferを先に実行する（deferはこのスコープのオブジェクトを参照できるため、
+    // デストラクタより前）
+    pop_defer_scope();
+
     // v0.10.0: デストラクタをLIFO順で呼び出す（最後に作成された変数から破棄）
     if (!destructor_stacks_.empty()) {
         if (!is_calling_destructor_) {
@@ -148,9 +152,6 @@ void Interpreter::pop_scope() {
                 "[SCOPE] pop_scope: WARNING - destructor_stacks_ is empty!");
         }
     }
-
-    // deferを実行
-    pop_defer_scope();
 
     // 配列参照のコピーバック処理
     // 関数終了時に、参照変数のデータベクトルを元の配列にコピーバック
@@ -237,6 +238,10 @@ void Interpreter::pop_destructor_scope() {
                   "before: %zu");
     }
 
+    // deferを先に実行する（deferはこのスコープのオブジェクトを参照できるため、
+    // デストラクタより前。関数スコープのpop_scope()と同じ順序）
+    pop_defer_scope();
+
     // デストラクタをLIFO順で呼び出す（最後に作成された変数から破棄）
     if (!destructor_stacks_.empty()) {
         if (!is_calling_destructor_) {
@@ -286,9 +291,6 @@ void Interpreter::pop_destructor_scope() {
                       "size after");
         }
     }
-
-    // deferを実行
-    pop_defer_scope();
 
     // 変数スコープはpopしない（variable_manager_->pop_scope()を呼ばない）
 }
@@ -388,9 +390,11 @@ void Interpreter::execute_defers() { pop_defer_scope(); }
 // deferとデストラクタを実行するが、変数スコープはpopしない
 void Interpreter::execute_pre_return_cleanup() {
     // 1. defer実行（LIFO順）
+    // フレーム自体は残す（中身だけ空にする）。フレームをpopすると、ReturnExceptionを
+    // 受け取った外側のブロック／pop_scope()が呼び出し元のフレームをpopしてしまう。
     if (!defer_stacks_.empty() && !defer_stacks_.back().empty()) {
         std::vector<const ASTNode *> defers = defer_stacks_.back();
-        defer_stacks_.pop_back();
+        defer_stacks_.back().clear();
         for (auto it = defers.rbegin(); it != defers.rend(); ++it) {
             execute_statement(*it);
         }
@@ -398,13 +402,14 @@ void Interpreter::execute_pre_return_cleanup() {
 
     // 2. デストラクタ実行（LIFO順）
     if (!destructor_stacks_.empty() && !destructor_stacks_.back().empty()) {
-        const auto &destroy_list = destructor_stacks_.back();
+        const std::vector<std::pair<std::string, std::string>> destroy_list =
+            destructor_stacks_.back();
+        destructor_stacks_.back().clear();
         for (auto it = destroy_list.rbegin(); it != destroy_list.rend(); ++it) {
             const std::string &var_name = it->first;
             const std::string &struct_type_name = it->second;
             call_destructor(var_name, struct_type_name);
         }
-        destructor_stacks_.pop_back();
     }
 }
 
